@@ -79,6 +79,11 @@ def finalize(agg, tier):
                  "library_written_files_imported", "compressed_points_imported", "factor_recovery_keys_checked"):
         if not c.get(name):
             out.append("deciding counter %s is zero" % name)
+    if c.get("filter_spy_available"):
+        # the steered prime must really have been offered to the library as a q candidate for the tape to say anything
+        for sc in ("close-q", "close-q-straddle", "close-q-margin", "q-equals-p"):
+            if not c.get("scripted_candidate_seen_by_q_filter:" + sc):
+                out.append("scripted tape '%s': the steered prime was never seen as a q candidate" % sc)
     refused = sorted(k for k in c if k.startswith("valid_refused:"))
     if refused:
         out.append("inputs that are valid by construction were refused, so no key could be checked: " + ", ".join(refused[:12]))
